@@ -34,7 +34,8 @@ META = {
     'evaluation_counters': ['judged_' + m for m in MUTATORS],
     'required_counters': ['judged_' + m for m in MUTATORS] + [
         'model_rejects_and_real_raised', 'bfs_states', 'bfs_transitions', 'random_history_steps',
-        'fresh_equality_checked', 'internal_invariants_checked', 'new_names_appended_in_given_order'],
+        'fresh_equality_checked', 'internal_invariants_checked', 'new_names_appended_in_given_order',
+        'large_history_steps'],
     'shards': {'quick': 16, 'thorough': 16},
     'exhaustive': {'quick': 'all reachable states over {a,b}x{p,q} (113) x all operation instances over that universe',
                    'thorough': 'all reachable states over {a,b,c}x{p,q} x all operation instances over that universe'},
@@ -321,6 +322,8 @@ def cases(tier, seed, spec):
         yield {'kind': 'bfs', 'slice': k, 'of': n, 'universe': 'abc' if tier == 'thorough' else 'ab'}
     for k in range(400 if tier == 'quick' else 6000):
         yield {'kind': 'random', 'n': k}
+    for k in range(48 if tier == 'quick' else 600):
+        yield {'kind': 'large', 'n': k}
 
 
 def _materialise(D, args, others_real, d):
@@ -424,6 +427,8 @@ def run_random(concepts, case, spec):
             args = (pick_p(), rng.randrange(max(1, len(d.properties))))
         elif op in ('add_object', 'set_object'):
             args = (rng.choice(names_o), tuple(lst_p()) if rng.random() < .5 else lst_p())
+            if rng.random() < .2:
+                args = (args[0], dict.fromkeys(args[1]).keys())
             if op == 'add_object' and rng.random() < .2:
                 args = args[:1]
         elif op in ('add_property', 'set_property'):
@@ -448,8 +453,69 @@ def run_random(concepts, case, spec):
     COL.sample({'random_history_prefix': history[:12], 'length': length})
 
 
+def run_large(concepts, case, spec):
+    """Long axes (70-420 names): bulk removals, moves, renames, re-additions - thresholds
+    inside the ordered-set helper only show beyond a few dozen / a few hundred names."""
+    D = concepts.Definition
+    rng = random.Random(f"{spec['seed']}/c13large/{case['n']}")
+    no, np_ = rng.choice([(70, 6), (140, 9), (300, 5), (420, 4), (8, 280), (5, 90)])
+    objs = [f'o{i:03d}' for i in range(no)]
+    props = [f'p{j:03d}' for j in range(np_)]
+    d = D(objs, props, [tuple(rng.random() < .3 for _ in props) for _ in objs])
+    keep_o = rng.sample(objs, max(2, no // rng.choice([2, 5, 20])))
+    keep_p = rng.sample(props, max(2, np_ // rng.choice([1, 2, 5])))
+    other = D(keep_o + ['extra1', 'extra2'], keep_p + ['pextra'],
+              [tuple(bool(d[o, p]) if o in objs and p in props else False for p in keep_p + ['pextra'])
+               for o in keep_o + ['extra1', 'extra2']])
+    steps = 0
+    for round_ in range(3):
+        for _ in range(12):
+            op = rng.randrange(9)
+            ax_o = list(d.objects) or objs[:1]
+            ax_p = list(d.properties) or props[:1]
+            if op == 0:
+                apply_op(d, 'move_object', [rng.choice(ax_o), rng.randrange(len(ax_o))], {})
+            elif op == 1:
+                apply_op(d, 'move_property', [rng.choice(ax_p), rng.randrange(len(ax_p))], {})
+            elif op == 2:
+                apply_op(d, 'rename_object', [rng.choice(ax_o), f'renamed{steps}'], {})
+            elif op == 3:
+                apply_op(d, 'rename_property', [rng.choice(ax_p), f'prenamed{steps}'], {})
+            elif op == 4:
+                apply_op(d, 'remove_object', [rng.choice(ax_o)], {})
+            elif op == 5:
+                apply_op(d, '__setitem__', [(rng.choice(objs), rng.choice(props)), rng.random() < .5], {})
+            elif op == 6:
+                names = rng.sample(props, min(len(props), 3)) + [f'new{steps}a', f'new{steps}b']
+                arg = names if steps % 3 else (dict.fromkeys(names).keys() if steps % 2 else dict.fromkeys(names))
+                apply_op(d, rng.choice(['add_object', 'set_object']), [rng.choice(objs), arg], {})
+            elif op == 7:
+                names = rng.sample(objs, min(len(objs), 4)) + [f'onew{steps}a', f'onew{steps}b']
+                arg = tuple(names) if steps % 3 else dict.fromkeys(names).keys()
+                apply_op(d, rng.choice(['add_property', 'set_property']), [rng.choice(props), arg], {})
+            else:
+                apply_op(d, rng.choice(['remove_empty_objects', 'remove_empty_properties']), [], {})
+            steps += 1
+        # a bulk step that drops many names at once, then names are re-added
+        bulk = rng.randrange(3)
+        if bulk == 0:
+            apply_op(d, 'intersection_update', [other], {'ignore_conflicts': True})
+        elif bulk == 1:
+            apply_op(d, '__iand__', [other], {})
+        else:
+            apply_op(d, 'union_update', [other], {'ignore_conflicts': True})
+        for name in rng.sample(objs, min(len(objs), 6)):
+            apply_op(d, 'add_object', [name, rng.sample(props, min(len(props), 2))], {})
+        for name in rng.sample(props, min(len(props), 3)):
+            apply_op(d, '__setitem__', [(rng.choice(objs), name), True], {})
+        steps += 10
+    COL.count('large_history_steps', steps)
+
+
 def run_case(concepts, case, spec):
     INFLIGHT.clear()
+    if case['kind'] == 'large':
+        return run_large(concepts, case, spec)
     if case['kind'] == 'bfs':
         run_bfs(concepts, case, spec)
     else:
